@@ -43,7 +43,7 @@ def config(rng, tier):
     return {
         "regime": regime,
         "ulps": regime == "decimal" and rng.random() < 0.5,
-        "labels": rng.choice(["plain", "punct", "empty", "padded", "unicode"]),
+        "labels": rng.choice(["plain", "punct", "empty", "padded", "unicode", "numeric"]),
         "pad_inserts": True,
         "steps": rng.randrange(3, 41 if deep else 15),
         "fault_rate": rng.choice([0.0, 0.1, 0.25, 0.4]),
